@@ -89,8 +89,7 @@ class CFG:
         self._copy = 0
         self.of_ast: dict[int, list[Node]] = {}
         end = self._block(fn.body, [self.entry.id])
-        for e in end:
-            self._edge(e, self.exit.id, 'next')
+        self._connect(end, self.exit.id, 'next')
         self._dom: dict[int, set[int]] | None = None
         self._pdom: dict[int, set[int]] | None = None
 
@@ -106,6 +105,13 @@ class CFG:
         if (b, label) not in self.nodes[a].succ:
             self.nodes[a].succ.append((b, label))
             self.nodes[b].pred.append((a, label))
+
+    def _connect(self, preds: list, target: int, label: str) -> None:
+        for p in preds:
+            if isinstance(p, tuple):
+                self._edge(p[0], target, p[1])
+            else:
+                self._edge(p, target, label)
 
     def _link(self, preds: list[int], n: Node, label: str = 'next') -> None:
         for p in preds:
@@ -201,8 +207,7 @@ class CFG:
                 self._exc_edge(n)
             cur = [n.id]
             cur = self._run_finallies(cur, 0, for_loop=False)
-            for c in cur:
-                self._edge(c, self.exit.id, 'next')
+            self._connect(cur, self.exit.id, 'next')
             return []
         if isinstance(st, ast.Raise):
             n = self._new('stmt', st)
@@ -213,15 +218,13 @@ class CFG:
             n = self._new('stmt', st)
             self._link(preds, n)
             cur = self._run_finallies([n.id], len(self._loops), for_loop=True)
-            for c in cur:
-                self._edge(c, self._loops[-1][1], 'next')
+            self._connect(cur, self._loops[-1][1], 'next')
             return []
         if isinstance(st, ast.Continue):
             n = self._new('stmt', st)
             self._link(preds, n)
             cur = self._run_finallies([n.id], len(self._loops), for_loop=True)
-            for c in cur:
-                self._edge(c, self._loops[-1][0], 'back')
+            self._connect(cur, self._loops[-1][0], 'back')
             return []
         # simple statement
         n = self._new('stmt', st)
